@@ -141,13 +141,15 @@ PROPS["C12"] = {
 }
 
 PA = "internal/pkg/controler/pause"
+WATCH_MODELS = dict(DEFAULT_MODELS)
+WATCH_MODELS.update({"syscall.Statfs": Z + "/internal/verifmodel.Statfs", Z + "/internal/pkg/archiver.GetWARCWritingQueueSize": Z + "/internal/verifmodel.WARCQueueSize"})
 PROPS["C14"] = {
     "technique": 'bounded model checking of go/ssa under an explicit scheduler (sleep-set POR, preemption bound, race detector); data concrete',
     "level": "model_checking",
-    "explanation": "the real pause manager (Subscribe, Unsubscribe, Pause, Resume, IsPaused) and the real stage worker loops are executed from SSA with their goroutines; "
+    "explanation": "the real pause manager (Subscribe, Unsubscribe, Pause, Resume, IsPaused), the real stage worker loops and the real watchdog loops (WatchDiskSpace, StartWatchWARCWritingQueue; disk state and queue length scripted, timer firings granted by the harness) are executed from SSA with their goroutines; "
                    "every Pause/Resume call sequence within the bound and every interleaving within the preemption bound is explored; a caller or worker blocked forever shows up as a state with no enabled goroutine.",
-    "bounds": "1-2 subscribed workers; <=3 controller calls from {Pause, Resume, hand out work}; two concurrent controllers each doing Pause;Resume; <=2 preemptions per path",
-    "outside": "more workers/calls; the TUI menu and the WARC-queue watcher bodies (only their Pause/Resume call pattern is driven)",
+    "bounds": "1-2 subscribed workers; <=3 controller calls from {Pause, Resume, hand out work}; two concurrent controllers each doing Pause;Resume; the real disk watchdog loop + operator toggle + one worker over 3 events from {disk low + firing, disk ok + firing, operator toggle, work}; thorough: disk watchdog + WARC-queue watchdog (all three tickers) + one worker over 2 rounds of (disk state, queue length, work, 1-2 timer firings); <=2 preemptions per path",
+    "outside": "more workers/calls; the TUI widget code (its pause/unpause toggle is reproduced in the harness); native replay of the WARC-queue watchdog (its queue length cannot be scripted outside the archiver package: a counterexample there is reported as inconclusive). Observed, not a violation of the statement: the watchdogs and the operator share one pause flag, so a resume by one controller also ends a pause another controller asked for (e.g. the queue watchdog resumes while the disk is still low, and the disk watchdog, believing the pipeline paused, does not pause again)",
     "assumptions": COMMON_ASSUME + ["sequential consistency at channel/atomic/sync operations; plain accesses are not preemption points"],
     "stub_pkgs": DEFAULT_STUBS + [STATS],
     "harnesses": [
@@ -155,6 +157,9 @@ PROPS["C14"] = {
         {"pkg": PA, "func": "VerifH_C14_two_controllers", "replay_tries": 50, "covers": ["both-returned"]},
         {"pkg": PA, "func": "VerifH_C14_protocol4", "replay_tries": 5, "thorough_only": True, "opts": {"max_wall_s": 1500}, "covers": ["matched-resume", "unmatched-resume", "done"]},
         {"pkg": "internal/pkg/finisher", "func": "VerifH_C14_finisher_workers", "replay_tries": 5, "covers": ["stop-while-paused", "stop-while-running", "stopped"]},
+        {"pkg": "internal/pkg/controler/watchers", "func": "VerifH_C14_disk_watchdog", "replay_tries": 5, "models": WATCH_MODELS,
+         "covers": ["disk-low", "watchdog-resumed", "operator", "paused", "watchdog-stopped", "left-paused"]},
+        {"pkg": "internal/pkg/controler/watchers", "func": "VerifH_C14_two_watchdogs", "models": WATCH_MODELS, "thorough_only": True, "opts": {"max_wall_s": 900}, "covers": ["paused", "watchdogs-stopped"]},
     ],
 }
 
@@ -425,6 +430,8 @@ PROPS["C01"] = {
     "harnesses": [
         {"pkg": "internal/verifpipe", "func": "VerifH_C01_one_seed", "replay_tries": 2, "opts": {"max_steps": 50000000, "unwind": 70000, "map_order_all": False, "no_preempt": True},
          "covers": ["finished", "asset-fetched", "asset-of-asset", "redirect-followed", "always-failing", "outlink-produced", "asset-redirect-followed", "asset-redirects-out-of-scope", "asset-fails-for-good", "asset-fails-once"]},
+        {"pkg": "internal/verifpipe", "func": "VerifH_C01_two_seeds", "replay_tries": 2, "thorough_only": True, "opts": {"max_steps": 50000000, "unwind": 70000, "map_order_all": False, "max_wall_s": 3000, "preempt": 1},
+         "covers": ["finished", "shared-asset", "asset-of-asset"]},
         {"pkg": "internal/verifpipe", "func": "VerifH_C01_one_seed_3assets", "replay_tries": 2, "thorough_only": True, "opts": {"max_steps": 50000000, "unwind": 70000, "map_order_all": False, "max_wall_s": 3000, "no_preempt": True},
          "covers": ["finished", "asset-fetched", "asset-of-asset"]},
     ],
